@@ -150,11 +150,12 @@ theorem pickLine_innermost (pre post : List Record) (r : Record) (fn : Str) (ln 
   rw [h1]
   simp [hr]
 
-theorem pickLine_none (rs : List Record) (h : ∀ q ∈ rs, q.hit = none) : pickLine rs = none := by
+theorem pickLine_none_iff (rs : List Record) : pickLine rs = none ↔ ∀ q ∈ rs, q.hit = none := by
   unfold pickLine
   rw [List.findSome?_eq_none_iff]
-  intro q hq
-  exact h q (List.mem_reverse.mp hq)
+  constructor
+  · intro h q hq; exact h q (List.mem_reverse.mpr hq)
+  · intro h q hq; exact h q (List.mem_reverse.mp hq)
 
 end Tb
 
